@@ -28,8 +28,15 @@ pub fn corpus_json_thorough() -> String {
     corpus_json_of(alphabet::pair_corpus_thorough())
 }
 
+pub fn unary_corpus() -> Vec<Value> {
+    let mut v = alphabet::ws_block_strings();
+    v.extend(alphabet::mutated_literals());
+    v.extend(alphabet::radix_families());
+    alphabet::dedup(v)
+}
+
 pub fn corpus_json_blocks() -> String {
-    corpus_json_of(alphabet::ws_block_strings())
+    corpus_json_of(unary_corpus())
 }
 
 pub fn corpus_json() -> String {
@@ -61,8 +68,8 @@ fn same_f64(a: f64, b: f64) -> bool {
 pub fn run(verbose: bool) -> i32 {
     let a = run_table(verbose, "fixtures/es_truth.json", alphabet::pair_corpus(), true);
     let b = run_table(verbose, "fixtures/es_truth_thorough.json", alphabet::pair_corpus_thorough(), false);
-    // per-value verdicts only (Number(), parseFloat(), String()) for the white-space blocks
-    let c = run_table(verbose, "fixtures/es_blocks.json", alphabet::ws_block_strings(), false);
+    // per-value verdicts only (Number(), parseFloat(), String()): white-space blocks, mutated literals, radix families
+    let c = run_table(verbose, "fixtures/es_blocks.json", unary_corpus(), false);
     if a != 0 || b != 0 || c != 0 {
         1
     } else {
